@@ -52,6 +52,16 @@ def run_case(ctx, g, rng):
     long_lived(ctx, rng, rng.choice([":", "/"]), g)
     d = rng.choice(gen.DELIMS)
     recs = gen.records(rng, d, 0, 4, allow_delim=rng.random() < 0.15)
+    if recs and rng.random() < 0.3:
+        # strings that read both ways: some CURIE prefix + delimiter is itself a registered URI prefix ("urn" next to
+        # "urn:isbn:", a JSON-LD term defined by a compact IRI) - the modes of one call must still agree and the default
+        # call must not raise (seed C08-U: two predicates that call each other exactly for such strings)
+        taken_u = {u for r in recs for u in spec.all_u(r)}
+        r0 = rng.choice(recs)
+        cand = rng.choice(spec.all_p(rng.choice(recs))) + d + rng.choice(["", "isbn" + d, "x"])
+        if cand not in taken_u:
+            recs[recs.index(r0)] = r0._replace(usyn=r0.usyn + (cand,))
+            S.counters["wl:maps-with-strings-that-read-both-ways"] += 1
     c, how = gen.build(api, recs, d, rng)
     hooked = g % 7 == 3 and bool(recs)
     if hooked:
